@@ -168,7 +168,7 @@ class FusedParquetIO(FusedIO):
     ):
         from dask_expr.io.parquet import ReadParquetPyarrowFS
 
-        tables = (
+        tables = [
             ReadParquetPyarrowFS._fragment_to_table(
                 frag,
                 filter,
@@ -176,8 +176,14 @@ class FusedParquetIO(FusedIO):
                 schema,
             )
             for frag, filter in frag_filters
-        )
-        table = pa.concat_tables(tables, promote_options="permissive")
+        ]
+        if tables and all(table.num_columns == 0 for table in tables):
+            # ``concat_tables`` forgets the rows of column-less tables
+            # (e.g. ``len`` of a frame that was written without its index)
+            nrows = sum(table.num_rows for table in tables)
+            table = pa.table({"_": pa.nulls(nrows)}).select([])
+        else:
+            table = pa.concat_tables(tables, promote_options="permissive")
         return ReadParquetPyarrowFS._table_to_pandas(table, *to_pandas_args)
 
     def _task(self, index: int):
